@@ -60,7 +60,7 @@ ASSUMPTIONS = ['claim is PARTIAL: the heap model abstracts CPython object semant
                'are accepted by K and covered by the theorems - aliasing the copy ADDS is a failure',
                'traced models only get float variables (NumPy coerces the mixed column of a trace; not modelled)']
 EXHAUSTIVE = {'quick': False, 'thorough': False}
-CASE_TIMEOUT = 30
+CASE_TIMEOUT = 120     # wall clock per case; a case takes ~20 ms, the margin is for loaded machines (a timeout is reported, never ignored)
 DEPTH = 8
 
 WK = ['span', 'index', '_strict', '_attributes', 'dtype', 'status', 'iterations', 'names', 'lags', 'leads', 'endogenous', 'check',
@@ -344,6 +344,9 @@ def make_span(sd, labels_only=False):
     if sd['kind'] == 'pdindex' and not labels_only:          # an (immutable) pandas Index as span
         import pandas as pd
         return pd.Index(vals)
+    if sd['kind'] == 'pdperiod' and not labels_only:         # a PeriodIndex (annual periods)
+        import pandas as pd
+        return pd.period_range(start=str(max(1, sd['start'])), periods=sd['n'], freq='Y')
     if sd['kind'] == 'ndarray' and not labels_only:          # a mutable NumPy array as span (copy() must deep-copy it like a list)
         import numpy as np
         return np.array(vals)
@@ -403,7 +406,19 @@ def impl(case):
                 try:
                     new = {'copy': lambda x: x.copy(), 'copy.copy': _copy.copy, 'copy.deepcopy': _copy.deepcopy}[route](src)
                 except Exception as e:      # a copy route that RAISES returns no object at all: recorded for the oracle
-                    copy_checks.append({'src': i, 'route': route, 'raised': type(e).__name__})
+                    # ... unless the object is one its own constructor refuses: (a) the class was mutated into a state in which
+                    # constructing a fresh instance on the same span raises too (a broken class: duplicate in NAMES, an alias shadowing
+                    # a variable), (b) a linker whose `name` was set to one of its submodel identifiers
+                    excused = None
+                    if _is_container(src) and isinstance(src.__dict__.get('submodels'), dict):
+                        if src.__dict__.get('name') in src.__dict__['submodels']:
+                            excused = 'linker-name-is-a-submodel-identifier'
+                    else:
+                        try:
+                            type(src)(_copy.deepcopy(src.__dict__['span']))
+                        except Exception:
+                            excused = 'class-constructor-raises'
+                    copy_checks.append({'src': i, 'route': route, 'raised': type(e).__name__, 'excused': excused})
                     raise
                 roots.append(new)
                 derived.append([len(roots) - 1, 'copy', i])
@@ -413,8 +428,9 @@ def impl(case):
                                     'diff': _dict_diff(src, new),
                                     'aliases_src': internal_aliases(src, enc), 'aliases_new': internal_aliases(new, enc)})
             elif kind == 'linker_init':
-                _, ci, subs = ev
-                obj = classes[ci]({k: roots[j] for k, j in subs})
+                ci, subs = ev[1], ev[2]
+                name = ev[3] if len(ev) > 3 else None
+                obj = classes[ci]({k: roots[j] for k, j in subs}) if name is None else classes[ci]({k: roots[j] for k, j in subs}, name=name)
                 roots.append(obj)
                 derived.append([len(roots) - 1, 'linker_init', ci])
             elif kind == 'reindex':
@@ -604,6 +620,8 @@ def run_op_(roots, i, o, enc):
         setattr(x, o[1], [list(v) for v in o[2]])
     elif k == 'setattrset':
         setattr(x, o[1], set(o[2]))
+    elif k == 'setattrdict':
+        setattr(x, o[1], {a: b for a, b in o[2]})
     elif k == 'strict':
         x.strict = o[1]
     elif k == 'setfrom':             # whole-series assignment whose VALUE is ANOTHER object's array (same dtype): b.X = a.X
@@ -788,6 +806,8 @@ def c_ops(case, ev, out, enc, kinds):
         return ['(OSetAttrList %s %s)' % (cz(enc.code(o[1])), czl(enc.code(v) for v in o[2]))]
     if k == 'setattrnested':
         return ['(OSetAttrNested %s %s)' % (cz(enc.code(o[1])), lib.clist(czl(enc.code(v) for v in vs) for vs in o[2]))]
+    if k == 'setattrdict':
+        return ['(OSetAttrDict %s %s)' % (cz(enc.code(o[1])), cpairs((enc.code(a), enc.code(b)) for a, b in o[2]))]
     if k == 'setattrset':
         return ['(OSetAttrSet %s %s)' % (cz(enc.code(o[1])), czl(sorted(enc.code(v) for v in set(o[2]))))]
     if k == 'strict':
@@ -889,6 +909,9 @@ def c_case(case, obs):
                 evs.append('(HOps %d%%nat %s)' % (ev[1], lib.clist(ops)))
             continue
         if 'exc' in out:
+            if k == 'linker_init' and out['exc'] == 'DuplicateNameError' and len(ev) > 3 and ev[3] in [key for key, _ in ev[2]]:
+                # the name-vs-identifier test of BaseLinker.__init__ IS modelled: the model must refuse as well (no new root)
+                evs.append('(HEv (ELinkerInit %d%%nat %s %s))' % (ev[1], lib.clist('(%s, %d%%nat)' % (cz(enc.code(key)), j) for key, j in ev[2]), cz(enc.code(ev[3]))))
             break             # the constructor / copy raised: the history ended here
         if k == 'init':
             a = ev[2]
@@ -907,7 +930,8 @@ def c_case(case, obs):
         elif k == 'copy':
             evs.append('(HCopyRoute %s %d%%nat)' % ({'copy': 'RCopy', 'copy.copy': 'RCopyCopy', 'copy.deepcopy': 'RDeepCopy'}[ev[2]], ev[1]))
         elif k == 'linker_init':
-            evs.append('(HEv (ELinkerInit %d%%nat %s %s))' % (ev[1], lib.clist('(%s, %d%%nat)' % (cz(enc.code(key)), j) for key, j in ev[2]), cz(enc.code('_'))))
+            evs.append('(HEv (ELinkerInit %d%%nat %s %s))' % (ev[1], lib.clist('(%s, %d%%nat)' % (cz(enc.code(key)), j) for key, j in ev[2]),
+                                                              cz(enc.code(ev[3] if len(ev) > 3 else '_'))))
         elif k == 'reindex':
             src = kinds[ev[1]]
             sd = ev[2]
@@ -1126,7 +1150,8 @@ def oracle(case, obs):
     # 1. copies: same class, original untouched, equal observable state
     for c in obs['copy_checks']:
         if 'raised' in c:
-            bad('%s|raises' % c['route'], '%s of root %d raised %s instead of returning a copy' % (c['route'], c['src'], c['raised']))
+            if not c.get('excused'):
+                bad('%s|raises' % c['route'], '%s of root %d raised %s instead of returning a copy' % (c['route'], c['src'], c['raised']))
             continue
         if not c['same_class']:
             bad('%s|class' % c['route'], '%s returned an object of another class' % c['route'])
@@ -1481,7 +1506,8 @@ def gen_op(rng, s, fresh_float, alias, tracer):
             return ['setattrlist', rng.choice(['check', 'endogenous']), [rng.choice(fv)] if fv else []]
         return rng.choice([['setattrlist', rng.choice(ATTR_NAMES), [1, 2]],
                            ['setattrnested', rng.choice(ATTR_NAMES), [[1, 2], [3], []]],
-                           ['setattrset', rng.choice(ATTR_NAMES), [1, 2, 'a']]])
+                           ['setattrset', rng.choice(ATTR_NAMES), [1, 2, 'a']],
+                           ['setattrdict', rng.choice(ATTR_NAMES), [['p', 1], ['q', 'x']]]])
     if q < 0.60:
         return ['strict', rng.random() < 0.5]
     if s.kind == 'model':
